@@ -4,7 +4,7 @@ From Coq Require Import List Arith Bool.
 From AV Require Import Base.Util Spec.Lang Spec.FA Spec.Regex Model.Decide
                        Model.RegexLex Model.RegexParse Model.RegexBuild
                        Proofs.RegexFrag Proofs.RegexProd Proofs.RegexBuild Proofs.RegexParse
-                       Proofs.RegexCompile.
+                       Proofs.RegexCompile Proofs.RegexTotal.
 Import ListNotations.
 
 (* The NFA the builder produces for an AST accepts exactly the denotation: literals, wildcard
@@ -32,6 +32,13 @@ Theorem C10_from_regex_sound : forall cs alpha m, alpha_ok alpha -> compile cs a
     valid_nfa m = true /\ n_syms m = sigma /\ L_nfa m =L den sigma r.
 Proof. exact compile_sound. Qed.
 Print Assumptions C10_from_regex_sound.
+
+(* the builder never fails on an AST whose literals belong to the alphabet; the literals of a
+   parsed expression are characters of the string *)
+Theorem C10_from_regex_total : forall sigma r, (forall a, In a (re_syms r) -> In a sigma) ->
+  exists m, compile_re sigma r = Ok m.
+Proof. exact compile_re_total. Qed.
+Print Assumptions C10_from_regex_total.
 
 (* upper bound 0 admits no copy (the repaired defect): r{0,0} denotes and compiles to {""} *)
 Theorem C10_upper_bound_zero : forall sigma r,
